@@ -370,12 +370,15 @@ def splice_body(body: str, spec: FnSpec, n_loops: int, key: str, diverge_spec="e
                 raise Undecided(f"{key}: spec names loop {k} but the function has {n_loops} loops (lost anchor)")
     # diverging closures (T5)
     def clos(m):
-        k = int(m.group(3))
+        k = int(m.group(4))
         txt = (spec.closures.get(k) if spec else None)
         if txt is None:
-            txt = diverge_spec if m.group(2) == "diverge" else ""
-        return f"{m.group(1)} {txt.strip()} {{" if txt.strip() else f"{m.group(1)} {{"
-    body = re.sub(r"(\|[^|]*\|)\s*\{\s*__vx_(diverge|closure)!\((\d+)\);", clos, body)
+            txt = diverge_spec if m.group(3) == "diverge" else ""
+        # a closure with a declared return type `|..| -> T {`: kept unless the spec text names the result itself (`-> (r: T) ensures ..`)
+        ret = (m.group(2) or "").strip()
+        head = m.group(1) if (not ret or txt.strip().startswith("->")) else f"{m.group(1)} {ret}"
+        return f"{head} {txt.strip()} {{" if txt.strip() else f"{head} {{"
+    body = re.sub(r"(\|[^|]*\|)\s*(->\s*[^{]+?)?\s*\{\s*__vx_(diverge|closure)!\((\d+)\);", clos, body)
     if re.search(r"__vx_\w+!", body):   # markers are macros; `__vx_a<k>` are the T1 argument temporaries
         raise Undecided(f"{key}: unreplaced marker")
     # proof insertions
@@ -383,8 +386,9 @@ def splice_body(body: str, spec: FnSpec, n_loops: int, key: str, diverge_spec="e
         for text in spec.ghosts:
             i = body.index("{")
             body = body[:i + 1] + "\n" + text + body[i + 1:]
-        for anchor, text in spec.proofs:
-            block = text[len(GHOST_MARK):] if text.startswith(GHOST_MARK) else "proof {\n" + text + "\n}"
+        for pitem in spec.proofs:
+            anchor, text = pitem[0], pitem[1]
+            block = text[len(GHOST_MARK):] if text.startswith(GHOST_MARK) else ("proof {\n" + text + "\n}")
             if anchor == "entry":
                 i = body.index("{")
                 body = body[:i + 1] + "\n" + block + body[i + 1:]
